@@ -127,20 +127,22 @@ static struct hwloc_backend vp_be; static struct hwloc_disc_component vp_comp;
 /* build seed `id` with topology flags `flags`; every type filter is KEEP_ALL unless VP_SEED_FILTER_HOOK tweaks it */
 static struct hwloc_topology *vp_seed_build(int id, unsigned long flags)
 {
-  struct hwloc_topology *t = calloc(1, sizeof(*t));
-  VP_NONNULL(t);
+  /* typed allocations zeroed by assignment: calloc's model yields an untyped byte array, which costs symex its
+   * field sensitivity (topology->tma, ->levels ... would no longer be known values) */
+#define VP_SNEW(T, p) do { (p) = malloc(sizeof(T)); VP_NONNULL(p); static const T vp_zero_; *(p) = vp_zero_; } while (0)
+  struct hwloc_topology *t; VP_SNEW(struct hwloc_topology, t);
   memset(&vp_seed, 0, sizeof vp_seed);
   vp_seed_id = id; vp_seed_flags = flags;
-  t->support.discovery = calloc(1, sizeof(*t->support.discovery));
-  t->support.cpubind = calloc(1, sizeof(*t->support.cpubind));
-  t->support.membind = calloc(1, sizeof(*t->support.membind));
-  t->support.misc = calloc(1, sizeof(*t->support.misc));
-  VP_NONNULL(t->support.discovery); VP_NONNULL(t->support.cpubind); VP_NONNULL(t->support.membind); VP_NONNULL(t->support.misc);
+  VP_SNEW(struct hwloc_topology_discovery_support, t->support.discovery);
+  VP_SNEW(struct hwloc_topology_cpubind_support, t->support.cpubind);
+  VP_SNEW(struct hwloc_topology_membind_support, t->support.membind);
+  VP_SNEW(struct hwloc_topology_misc_support, t->support.misc);
   t->topology_abi = HWLOC_TOPOLOGY_ABI;
   t->nb_levels_allocated = 16;
-  t->levels = calloc(16, sizeof(*t->levels));
-  t->level_nbobjects = calloc(16, sizeof(*t->level_nbobjects));
+  t->levels = malloc(16 * sizeof(*t->levels));
+  t->level_nbobjects = malloc(16 * sizeof(*t->level_nbobjects));
   VP_NONNULL(t->levels); VP_NONNULL(t->level_nbobjects);
+  for (unsigned i_ = 0; i_ < 16; i_++) { t->levels[i_] = NULL; t->level_nbobjects[i_] = 0; }
   hwloc__topology_filter_init(t);
   /* default filters, plus I/O and Misc kept so that S2 can carry them */
   t->type_filter[HWLOC_OBJ_BRIDGE] = t->type_filter[HWLOC_OBJ_PCI_DEVICE] = t->type_filter[HWLOC_OBJ_OS_DEVICE] = t->type_filter[HWLOC_OBJ_MISC] = HWLOC_TYPE_FILTER_KEEP_ALL;
